@@ -7,6 +7,10 @@ CLAIMS = {
  'C13': dict(text="Static (SSA control-flow x lock automaton, all paths, all constant specialisations of the mode parameters): every internal lock acquired is released on every return path; nothing that waits on another goroutine or re-enters (second bucket lock, resize mutex, Cond.Wait, resize, channel op, visitor/callback) runs under a bucket lock; the resize owner clears the flag then broadcasts (one of them under the waiters' mutex) on every exit; waiters test the flag and Wait in one critical section; closures the cache layer runs under the bucket lock call only the user's compute function. These are necessary conditions of C13, decided for all paths; termination itself (fairness, starvation) is not decided.",
              note="Trusted: go/types + go/ssa (x/tools v0.29.0), documented semantics of sync and sync/atomic, structural recognition of the spin-lock helpers. Not covered: liveness under unfair scheduling, blocking user valueFn (excluded by the property).",
              tech="static analysis: typestate/lockset automaton over SSA CFG with constant specialisation; call-graph effect sets", ref="DESIGN.md §3 C13"),
+
+ 'C14': dict(text="Static access-discipline analysis over every memory access in API-reachable code: writes to words that lock-free readers load (slots, meta/top-hash, chain link, table pointer, resize flag, counter stripes) are sync/atomic or go to an object of the current activation that nothing reaching the store has published; plain reads of such words happen only with the bucket lock of the very chain in the must-lockset or on unpublished objects; immutable-after-publication fields are written only before publication; slot pointers are nil or per-call allocations; settings live in atomic.Value with one dynamic type; janitor-shared variables are not written after the go statement; 64-bit atomic operands are aligned under the 386 layout. This decides the mechanism the property anchors (a necessary condition for race freedom of this design), not the race detector's verdict on executions.",
+             note="Trusted: go/types + go/ssa, Go memory model for sync/atomic and lock acquire/release ordering, C13.L1 (lock pairing) checked separately. Out of scope: functions unreachable from the public API (Stats), user callbacks and values.",
+             tech="static analysis: access-path x lockset x allocation-provenance classification over SSA", ref="DESIGN.md §3 C14"),
 }
 checks = []
 for i in ids:
